@@ -140,20 +140,23 @@ theorem tableFlags_rt (tf : UInt32) (ar t : Bytes) (har : 4 + ar.length < 256) :
 theorem latin1Push_ascii (b : UInt8) (h : b < 0x80) : latin1Push b = [b] := by
   simp [latin1Push, h]
 
-/-- a NUL-terminated ASCII string is scanned back -/
+theorem latin1Push_eq (b : UInt8) : latin1Push b = Spec.Mtrl.latin1Utf8 b := rfl
+
+/-- a NUL-terminated string (any non-NUL bytes) is scanned back, each byte as its Latin-1 character -/
 theorem scanString_path (p rest : Bytes) (hp : wfPath p = true) :
-    scanString (p ++ 0 :: rest) = .ok (p, p.length) := by
+    scanString (p ++ 0 :: rest) = .ok (p.flatMap Spec.Mtrl.latin1Utf8, p.length) := by
   induction p with
   | nil => simp [scanString]
   | cons b r ih =>
-    simp only [wfPath, List.all_cons, Bool.and_eq_true, bne_iff_ne, ne_eq, decide_eq_true_eq] at hp
-    have hb : (b == 0) = false := by simpa using hp.1.1
+    simp only [wfPath, List.all_cons, Bool.and_eq_true, bne_iff_ne, ne_eq] at hp
+    have hb : (b == 0) = false := by simpa using hp.1
     have ih' := ih (by simpa [wfPath] using hp.2)
-    simp only [List.cons_append, scanString, hb, ih', latin1Push_ascii b hp.1.2]
+    simp only [List.cons_append, scanString, hb, ih', latin1Push_eq, List.flatMap_cons]
     simp
 
 theorem texturePaths_rt (ts : List Bytes) (rest : Bytes) (hts : ts.all wfPath = true) :
-    texturePaths ts.length (ts.flatMap (fun p => p ++ [0]) ++ rest) = .ok ts := by
+    texturePaths ts.length (ts.flatMap (fun p => p ++ [0]) ++ rest) =
+      .ok (ts.map (·.flatMap Spec.Mtrl.latin1Utf8)) := by
   induction ts with
   | nil => simp [texturePaths]
   | cons p r ih =>
@@ -165,12 +168,12 @@ theorem texturePaths_rt (ts : List Bytes) (rest : Bytes) (hts : ts.all wfPath = 
         (p ++ [0]) ++ (r.flatMap (fun p => p ++ [0]) ++ rest) by simp]
       exact List.drop_left' (by simp)
     simp only [List.length_cons, texturePaths, List.flatMap_cons, List.append_assoc,
-      List.cons_append, List.nil_append, h1, hd, ih hts.2]
+      List.cons_append, List.nil_append, h1, hd, ih hts.2, List.map_cons]
 
-/-- any byte string containing a NUL whose leading C string is ASCII is scanned to that C string -/
-theorem scanString_cstr (s : Bytes) (hnul : s.any (· == 0) = true)
-    (hascii : (cstr s).all (· < 0x80) = true) :
-    scanString s = .ok (cstr s, (cstr s).length) := by
+/-- any byte string containing a NUL is scanned to its leading C string, each byte as its Latin-1
+character -/
+theorem scanString_cstr (s : Bytes) (hnul : s.any (· == 0) = true) :
+    scanString s = .ok ((cstr s).flatMap Spec.Mtrl.latin1Utf8, (cstr s).length) := by
   induction s with
   | nil => simp at hnul
   | cons b r ih =>
@@ -179,10 +182,9 @@ theorem scanString_cstr (s : Bytes) (hnul : s.any (· == 0) = true)
     · have hb' : (b == 0) = false := by simpa using hb
       have hb'' : (b != 0) = true := by simpa using hb
       simp only [List.any_cons, hb', Bool.false_or] at hnul
-      simp only [cstr, List.takeWhile_cons, hb'', if_true, List.all_cons, Bool.and_eq_true,
-        decide_eq_true_eq] at hascii
-      have ih' := ih hnul (by simpa [cstr] using hascii.2)
-      simp only [scanString, hb', ih', latin1Push_ascii b hascii.1, cstr, List.takeWhile_cons, hb'']
+      have ih' := ih hnul
+      simp only [scanString, hb', ih', latin1Push_eq, cstr, List.takeWhile_cons, hb'', if_true,
+        List.flatMap_cons]
       simp
 
 /-! ### constants -/
@@ -302,7 +304,7 @@ theorem toNat_ofNat8 (n : Nat) (h : n < 256) : (UInt8.ofNat n).toNat = n := by
 theorem fromExisting_encode (f : MaterialF) (h : WF f = true) :
     fromExisting (encode f) = .ok (view f) := by
   simp only [WF, Bool.and_eq_true, decide_eq_true_eq, beq_iff_eq] at h
-  obtain ⟨⟨⟨⟨⟨⟨⟨⟨⟨⟨⟨⟨⟨⟨⟨⟨⟨⟨⟨hheap, htex⟩, huv⟩, hcs⟩, har⟩, hoffs⟩, wtex⟩, hspo⟩, hnul⟩, hascii⟩, kct⟩, wct⟩,
+  obtain ⟨⟨⟨⟨⟨⟨⟨⟨⟨⟨⟨⟨⟨⟨⟨⟨⟨⟨hheap, htex⟩, huv⟩, hcs⟩, har⟩, hoffs⟩, wtex⟩, hspo⟩, hnul⟩, kct⟩, wct⟩,
     kdye⟩, wdye⟩, hkeys⟩, hconst⟩, hsamp⟩, hvals⟩, wconst⟩, wsamp⟩ := h
   have e1 := count_flatMap_id u32 putU32le f.textureOffsets (u8len f.textures).toNat
     (by rw [u8len, toNat_ofNat8 _ htex, hoffs]) (fun x _ t => u32_append x t)
@@ -323,9 +325,10 @@ theorem fromExisting_encode (f : MaterialF) (h : WF f = true) :
     (toNat_ofNat16 _ hsamp) (fun x hx t => sampler_rt x (List.all_eq_true.mp wsamp x hx) t)
   have e11 := count_flatMap_id u32 putU32le f.shaderValues (f.shaderValueListSize / 4).toNat
     (by rw [UInt16.toNat_div, hvals]; rfl) (fun x _ t => u32_append x t)
-  have s1 : texturePaths (u8len f.textures).toNat (heap f) = .ok f.textures := by
+  have s1 : texturePaths (u8len f.textures).toNat (heap f) =
+      .ok (f.textures.map (·.flatMap Spec.Mtrl.latin1Utf8)) := by
     rw [u8len, toNat_ofNat8 _ htex]; exact texturePaths_rt f.textures f.heapRest wtex
-  have s2 := scanString_cstr _ hnul hascii
+  have s2 := scanString_cstr _ hnul
   have s3 := constantsOf_rt f f.constants wconst
   simp only [fromExisting, materialData, materialFileHeader, materialHeader, encode, List.append_assoc,
     List.cons_append, List.nil_append, bind_apply, u32_append, u16_append, u8_append,
